@@ -1,7 +1,8 @@
 (* C16/Props.v : the property theorems for time evolution.  Model: C16/Model.v. *)
-From Coq Require Import ZArith List Bool Arith Permutation Floats Ring.
-From QV Require Import Base.Mat Base.Zi C15.MatDefs C15.Model C15.MatAlg C16.Model C16.Proofs C16.ProofsRK C16.ProofsRKw C16.ProofsMerge.
+From Coq Require Import ZArith List Bool Arith Permutation Floats Ring QArith.
+From QV Require Import Base.Mat Base.Zi C15.MatDefs C15.Model C15.MatAlg C16.Model C16.Proofs C16.ProofsRK C16.ProofsRKw C16.ProofsMerge C16.ProofsRKt.
 Import ListNotations.
+Local Close Scope Q_scope.
 
 (* ---- TermGroup.from_terms: every term lands in exactly one group; every group is a parent
         followed by children whose supports lie inside the parent's ---- *)
@@ -127,6 +128,44 @@ Proof.
   exact (rk45_fixed_taylor R o0 o1 oa om oo oi w2 w3 w5 w11 w13 w19 Rth i2 i3 i5 i11 i13 i19 H dt psi).
 Qed.
 Print Assumptions rk45_taylor_ok.
+
+(* ---- time-dependent Hamiltonians: the stage Hamiltonians are separate arguments of the model
+        (ham1 = H(t) in k1, ham2 = H(t + dt/2) in k2 and k3, ham3 = H(t + dt) in k4; RK45: one per stage at
+        t, t+dt/4, t+3dt/8, t+12dt/13, t+dt, t+dt/2); with equal arguments they are the constant-H steps ---- *)
+Theorem rk_steps_constant_case : forall R (K : rk_ring R) H dt psi,
+  rk4_step_t K H H H dt psi = rk4_step K H dt psi /\ rk45_step_t K H H H H H H dt psi = rk45_step K H dt psi.
+Proof. intros. split; reflexivity. Qed.
+Print Assumptions rk_steps_constant_case.
+
+(* commuting time dependence H(t + s) = f(s) H0 with f(s) = c0 + c1 s + c2 s^2 + c3 s^3: one RK4 step equals
+   the order-4 Taylor polynomial of exp(-i H0 int_0^dt f) psi up to dt^5 times an explicit polynomial, i.e. the
+   method keeps its order 4 for time-dependent Hamiltonians of this class.  (The analogous RK45 statement is
+   not proved: its certificate is too large for `ring`; RK45 is covered by the exact correspondence.) *)
+Theorem rk4_timedep_order : forall R (K : rk_ring R), rk_ring_ok K -> forall H0 c0 c1 c2 c3 dt psi,
+  let f := fun s => radd K (radd K (radd K c0 (rmul K c1 s)) (rmul K c2 (rmul K s s))) (rmul K c3 (rmul K (rmul K s s) s)) in
+  let F := radd K (radd K (radd K (rmul K c0 dt) (rmul K (rmul K c1 (rmul K dt dt)) (u2 K)))
+                          (rmul K (rmul K c2 (rmul K (rmul K dt dt) dt)) (u3 K)))
+                  (rmul K (rmul K c3 (rmul K (rmul K (rmul K dt dt) dt) dt)) (rmul K (u2 K) (u2 K))) in
+  exists rem, rk4_step_t K (rmul K (f (r0 K)) H0) (rmul K (f (rmul K dt (u2 K))) H0) (rmul K (f dt) H0) dt psi
+              = radd K (taylor4x K (rmul K H0 F) psi) (rmul K (rmul K (rmul K (rmul K (rmul K dt dt) dt) dt) dt) rem).
+Proof.
+  intros R [o0 o1 oa om oo oi w2 w3 w5 w11 w13 w19] (Rth & i2 & i3 & _) H0 c0 c1 c2 c3 dt psi f F.
+  exists (rk4_td_rem R o0 o1 oa om oo oi w2 w3 w5 w11 w13 w19 c0 c1 c2 c3 H0 dt psi).
+  exact (rk4_timedep R o0 o1 oa om oo oi w2 w3 w5 w11 w13 w19 Rth i2 i3 H0 c0 c1 c2 c3 dt psi).
+Qed.
+Print Assumptions rk4_timedep_order.
+
+(* ---- repeated executions of one AdiabaticEvolution object: the schedule arguments t / total_time of
+        every run are those of a fresh object with that run's final time ---- *)
+Theorem adiabatic_history_ok : forall runs st,
+  ad_history st runs = map (fun r : Q * list Q => snd (ad_execute None (fst r) (snd r))) runs.
+Proof. exact ad_history_fresh. Qed.
+Print Assumptions adiabatic_history_ok.
+
+Example adiabatic_history_nonvacuous :
+  ad_history None [(1%Q, exp_eval_times 0 1 (1 # 4)); (2%Q, exp_eval_times 0 2 (1 # 2))]
+  = [[(1 # 4)%Q; (1 # 2)%Q; (3 # 4)%Q; 1%Q]; [(1 # 4)%Q; (1 # 2)%Q; (3 # 4)%Q; 1%Q]].
+Proof. vm_compute. reflexivity. Qed.
 
 Example rk_ring_ok_nonvacuous : rk_ring_ok KQ.
 Proof. exact (conj gc_ring (conj KQ_inv2 (conj KQ_inv3 (conj KQ_inv5 (conj KQ_inv11 (conj KQ_inv13 KQ_inv19)))))). Qed.
